@@ -68,6 +68,10 @@ def plan(tier, seed):
         for order in orders:
             for m in ("ref", "affine", "curved"):
                 cases.append(dict(key=f"lagrange{dim}o{order}/{m}", kind=f"lagrange{dim}o{order}", member=m, seed=seed, tier=tier, cost=order ** (2 * dim) / 4))
+            # not permuted (cell connectivity in lexicographic point order, RegionLagrange(permute=False))
+            if order <= 3:
+                for m in ("ref", "curved"):
+                    cases.append(dict(key=f"lagrange{dim}o{order}n/{m}", kind=f"lagrange{dim}o{order}n", member=m, seed=seed, tier=tier, cost=order ** (2 * dim) / 4))
     return cases
 
 
@@ -116,7 +120,7 @@ def mono(exps, x):
 
 def repro_space(kind, member):
     if kind.startswith("lagrange"):
-        dim, order = int(kind[8]), int(kind[10:])
+        dim, order = int(kind[8]), int(kind[10:].rstrip("n"))
         if member == "ref":
             return space_monomials("Q", order, dim)
         if member == "affine":
@@ -149,7 +153,7 @@ def nodal_values(kind, mesh, exps_list):
 def get_mesh(case):
     kind, member, seed = case["kind"], case["member"], case["seed"]
     if kind.startswith("lagrange"):
-        return zoo.lagrange_mesh(int(kind[8]), int(kind[10:]), member, seed)
+        return zoo.lagrange_mesh(int(kind[8]), int(kind[10:].rstrip("n")), member, seed, permute=not kind.endswith("n"))
     return zoo.make(kind, member, seed)
 
 
@@ -221,11 +225,11 @@ def run(case):
     if kind in SIMPLEX:
         hq = fem.quadrature.Triangle(order=5) if dim == 2 else fem.quadrature.Tetrahedron(order=5)
     else:
-        order_el = int(kind[10:]) if kind.startswith("lagrange") else ELEMENT_SPACE[kind][1]
+        order_el = int(kind[10:].rstrip("n")) if kind.startswith("lagrange") else ELEMENT_SPACE[kind][1]
         hq = fem.quadrature.GaussLegendre(order=order_el + 3, dim=dim)
     _, dh_h, _, dXdr_h = own_geometry(el, hq.points, X, cells)
     vol_h = float((np.linalg.det(dXdr_h) * np.asarray(hq.weights)[:, None]).sum())
-    rule_cannot = (kind == "tetra10" and member == "curved") or (kind.startswith("lagrange3") and int(kind[10:]) >= 3 and member == "curved")
+    rule_cannot = (kind == "tetra10" and member == "curved") or (kind.startswith("lagrange3") and int(kind[10:].rstrip("n")) >= 3 and member == "curved")
     if not rule_cannot:
         cmp("volume_highorder", "sum of dV vs the checker's high-order integral of det J", vol, vol_h, tol=1e-10)
     outcomes.add("vol=%.6f" % vol)
@@ -369,7 +373,7 @@ def run(case):
         bad("float32/dtype", "dtype of the converted copy", [str(r32.dV.dtype), str(r32.dhdX.dtype), str(r32.h.dtype)], "float32")
     if region.dV.dtype != np.float64 or region.dhdX.dtype != np.float64:
         bad("float32/original", "astype(copy=True) modified the original region", str(region.dV.dtype), "float64")
-    reproduce("float32", r32, tol=2e-5 * (4 ** (int(kind[10:]) - 1) if kind.startswith("lagrange") else 1), dtype=np.float32)
+    reproduce("float32", r32, tol=2e-5 * (4 ** (int(kind[10:].rstrip("n")) - 1) if kind.startswith("lagrange") else 1), dtype=np.float32)
 
     # ---- default rule integrates products of shape-function gradients exactly on affine cells
     affine_cells = member in ("ref", "block", "strip", "aniso", "affine") or (kind in SIMPLEX and member != "curved")
@@ -389,7 +393,7 @@ def run(case):
         npc = dcells.shape[1]
         dorder = {1: 0}.get(npc, 1)
         if kind.startswith("lagrange"):
-            dorder = int(kind[10:]) - 1
+            dorder = int(kind[10:].rstrip("n")) - 1
         dexps = space_monomials("P", 0 if member in ("curved",) else dorder, dim) if not kind.startswith("lagrange") else (
             space_monomials("Q", dorder, dim) if member == "ref" else space_monomials("P", dorder if member == "affine" else min(dorder, 1), dim))
         if dorder == 0:
@@ -425,7 +429,9 @@ def _rk(kind, has_hess):
     if has_hess:
         kw["hess"] = True
     if kind.startswith("lagrange"):
-        kw.update(order=int(kind[10:]), dim=int(kind[8]))
+        kw.update(order=int(kind[10:].rstrip("n")), dim=int(kind[8]))
+        if kind.endswith("n"):
+            kw.update(permute=False)
     if kind == "line":
         import felupe as fem
 
